@@ -320,6 +320,15 @@ def call_ext(it: Any, f: ExtV, args: List[Any], kwargs: Dict[str, Any], node: An
         if isinstance(v, Gamma):
             return it.lift(lambda x, k=k: call_ext(it, f, args, {**kwargs, k: x}, node), v)
     short = name.split(".")[-1]
+    if name in getattr(it, "ext_results", {}):
+        # a process-state query whose answer the scenario fixes (e.g. torch.is_grad_enabled)
+        it.log("call", node, callee=name, args=args, kwargs=kwargs, bound=None, result=it.ext_results[name])
+        return it.ext_results[name]
+    if name in ("torch.utils.checkpoint.checkpoint", "torch.utils.checkpoint.checkpoint.checkpoint") and args:
+        # activation checkpointing: checkpoint(fn, *args, **kw) computes fn(*args, **kw) (recomputed in backward);
+        # its own keywords are not forwarded
+        own = ("use_reentrant", "preserve_rng_state", "context_fn", "determinism_check", "debug")
+        return it.call_function(args[0], list(args[1:]), {k_: v_ for k_, v_ in kwargs.items() if k_ not in own}, node)
     # ---- math
     if name.startswith("math."):
         try:
